@@ -66,18 +66,29 @@ def main():
         rc1, out1 = sh('%s %s' % (PY, demo), cwd=wt, env=env, timeout=300)
         ran.append('demo with patch: exit %d' % rc1)
         touches_admin = 'admin.py' in open(patch).read()
-        sel = 'tests/common tests/async'
-        if not touches_admin:
-            sel += ' --deselect tests/common/test_admin.py ' \
-                   '--deselect tests/async/test_admin.py'
+        sel = 'tests/common tests/async --deselect tests/common/test_admin.py ' \
+              '--deselect tests/async/test_admin.py'
         rct, outt = sh('%s -m pytest -q -p no:cacheprovider --timeout=900 %s'
                        % (PY, sel), cwd=wt, env=env, timeout=3000)
         tail = [l for l in outt.strip().splitlines() if 'passed' in l or
                 'failed' in l][-1:]
-        ran.append('test suite with patch (%s): %s' % (
-            'incl. admin' if touches_admin else 'without admin tests',
+        ran.append('test suite with patch (without admin tests): %s' % (
             tail[0] if tail else 'exit %d' % rct))
         fails = [l for l in outt.splitlines() if l.startswith('FAILED')]
+        if touches_admin:
+            # the admin tests bind a fixed port: run them alone in a private
+            # network namespace so concurrent runs cannot disturb each other
+            cmd = "unshare -rn sh -c 'ip link set lo up; PYTHONPATH=%s/src " \
+                  "%s -m pytest -q -p no:cacheprovider --timeout=900 " \
+                  "tests/common/test_admin.py tests/async/test_admin.py'" % (
+                      wt, PY)
+            rca2, outa2 = sh(cmd, cwd=wt, env=env, timeout=3000)
+            tail = [l for l in outa2.strip().splitlines() if 'passed' in l
+                    or 'failed' in l][-1:]
+            ran.append('admin tests with patch (private netns): %s' % (
+                tail[0] if tail else 'exit %d' % rca2))
+            fails += [l for l in outa2.splitlines()
+                      if l.startswith('FAILED')]
         base_fail = {'test_admin_connect_only_admin',
                      'test_admin_connect_production',
                      'test_admin_connect_with_others', 'test_admin_features'}
